@@ -81,6 +81,8 @@ pub enum Operand {
     Test { segs: Vec<String>, op: usize, lit: Lit },
     Indirect { a: Vec<String>, b: Vec<String>, is: bool },
     Rule(String),
+    /// match text that is not in the grammar (e.g. a keyword in the wrong letter case): the rule must not compile
+    Raw(String),
 }
 
 impl Operand {
@@ -91,6 +93,7 @@ impl Operand {
                 format!("{} {} @{}", render_path(a), if *is { "is" } else { "==" }, render_path(b))
             }
             Operand::Rule(n) => format!("rule({n})"),
+            Operand::Raw(t) => t.clone(),
         }
     }
     pub fn spec(&self) -> Value {
@@ -98,6 +101,8 @@ impl Operand {
             Operand::Test { segs, op, lit } => json!({"test": {"segs": segs, "op": OPS[*op].1, "lit": lit.spec()}}),
             Operand::Indirect { a, b, .. } => json!({"ind": [a, b]}),
             Operand::Rule(n) => json!({ "rule": n }),
+            // an operand the specification never accepts (an ordering test against a keyword)
+            Operand::Raw(_) => json!({"test": {"segs": [], "op": "lt", "lit": "none"}}),
         }
     }
 }
@@ -113,6 +118,8 @@ pub enum Form {
     Any(Option<String>),
     NoneOf(Option<String>),
     N(u64, Option<String>),
+    /// a count given by its digits (may exceed 2^64)
+    NBig(String, Option<String>),
 }
 
 impl Form {
@@ -127,6 +134,7 @@ impl Form {
             Form::Any(p) => json!({ "any": p }),
             Form::NoneOf(p) => json!({ "none": p }),
             Form::N(n, p) => json!({"n": [n, p]}),
+            Form::NBig(d, p) => json!({"nbig": [d, p]}),
         }
     }
     fn prec(&self) -> u8 {
@@ -205,6 +213,7 @@ impl Form {
                 };
                 format!("{}{}of{}{}", digits, Self::sp(rng), Self::sp(rng), Self::group(p))
             }
+            Form::NBig(d, p) => format!("{}{}of{}{}", d, Self::sp(rng), Self::sp(rng), Self::group(p)),
         };
         if !matches!(self, Form::Tt) && rng.chance(1, 8) {
             format!("({s})")
